@@ -43,6 +43,12 @@ def h_dispatch(P):
         def run_metaepoch(self, tree):
             self._history.append([[self.current_population[0]]])
 
+    class NicheEAConfig(EALevelConfig):
+        pass
+
+    class NicheEADeme(EADeme):
+        pass
+
     class Hijack(AbstractDeme):
         def run_metaepoch(self, tree):
             pass
@@ -50,12 +56,15 @@ def h_dispatch(P):
     bounds = np.array([[-2.0, 2.0], [-1.0, 3.0]])
     prob = FunctionProblem(lambda x: float(np.sum(x ** 2)), bounds, False)
     use_custom_leaf = bool(P.bool("custom_leaf"))
-    levels = [EALevelConfig(ea_class=SEA, generations=1, problem=prob, pop_size=4, mutation_std=0.5, lsc=DontStop()),
+    derived_root = bool(P.bool("root_config_derived_from_builtin"))
+    root_cls = NicheEAConfig if derived_root else EALevelConfig
+    levels = [root_cls(ea_class=SEA, generations=1, problem=prob, pop_size=4, mutation_std=0.5, lsc=DontStop()),
               MyConfig(prob, DontStop()) if use_custom_leaf else CMALevelConfig(problem=prob, lsc=DontStop(), generations=1, sigma0=0.5)]
     cfg = TreeConfig(levels, DontStop(), get_simple_sprout(0.01, 3), options={"random_seed": 3},
-                     config_class_to_deme_class={MyConfig: MyDeme, EALevelConfig: Hijack, CMALevelConfig: Hijack})
+                     config_class_to_deme_class={MyConfig: MyDeme, NicheEAConfig: NicheEADeme, EALevelConfig: Hijack, CMALevelConfig: Hijack})
     tree = DemeTree(cfg)
-    P.oblige("C07.builtin_config_keeps_builtin_engine", type(tree.root) is EADeme)
+    P.oblige("C07.builtin_config_keeps_builtin_engine", derived_root or type(tree.root) is EADeme)
+    P.oblige("C07.config_derived_from_builtin_dispatches_to_registered_class", (not derived_root) or type(tree.root) is NicheEADeme)
     for _ in range(2):
         tree.run_step()
     P.oblige("C07.children_exist", len(tree.levels[1]) >= 1)
